@@ -124,7 +124,9 @@ func (s *LocalBackend) Metrics() []prometheus.Collector {
 }
 
 func compareFile(f *os.File, data []byte) error {
-	b := make([]byte, min(len(data), 16384))
+	// The buffer must not be empty: Read with an empty buffer returns (0, nil)
+	// forever, so comparing against empty data would never terminate.
+	b := make([]byte, max(1, min(len(data), 16384)))
 	for {
 		n, err := f.Read(b)
 		if err != nil && err != io.EOF {
